@@ -141,7 +141,19 @@ def run_property(prop, tier='quick', replay=None, quiet=False):
     broken = None
     try:
         units = getattr(mod, 'UNITS', None)
-        tus, skipped = extract.load(tier, only_units=units)
+        # source-level witnesses that need no extracted facts (programs that must build) are judged first: when the fact
+        # extraction itself fails because the same library change breaks a witness unit, the established violation is reported
+        # instead of a bare analysis-broken
+        if hasattr(mod, 'precheck'):
+            ctx = Ctx(prop, tier, [], [])
+            mod.precheck(ctx)
+        pre = ctx
+        ctx = None
+        try:
+            tus, skipped = extract.load(tier, only_units=units)
+        except AnalysisBroken:
+            ctx = pre
+            raise
         # access specifiers are taken from the witness units: the repository's test units compile the headers with
         # `#define private public`, which would make every internal helper look like a public entry point
         access = {}
@@ -155,7 +167,11 @@ def run_property(prop, tier='quick', replay=None, quiet=False):
                     a = access.get((f.skey, f.line))
                     if a is not None:
                         f.access = a
-        ctx = Ctx(prop, tier, tus, skipped)
+        if pre is not None:
+            ctx = pre
+            ctx.tus, ctx.skipped = tus, skipped
+        else:
+            ctx = Ctx(prop, tier, tus, skipped)
         mod.check(ctx)
         if ctx.deferred_broken:
             broken = '; '.join(ctx.deferred_broken)
